@@ -215,12 +215,13 @@ func c08Readable(c *core.Ctx, w c08Witness, orig, after []byte, rerr error) {
 }
 
 type c08hshape struct {
-	name   string
-	schema gen.S
-	good   []string
-	bad    []string // violates the schema
-	junk   []string // cannot be parsed as the type
-	explode bool
+	name          string
+	schema        gen.S
+	good          []string
+	bad           []string // violates the schema
+	junk          []string // cannot be parsed as the type
+	explode       bool
+	explicitFalse bool // "explode: false" is written out (same meaning as leaving it out)
 }
 
 func c08HeaderShapes() []c08hshape {
@@ -230,6 +231,8 @@ func c08HeaderShapes() []c08hshape {
 		{name: "boolean", schema: gen.S{"type": "boolean"}, good: []string{"true", "false"}, junk: []string{"maybe"}},
 		{name: "array-integer", schema: gen.S{"type": "array", "items": gen.S{"type": "integer"}, "maxItems": 2.0}, good: []string{"1", "1,2"}, bad: []string{"1,2,3"}, junk: []string{"1,x"}},
 		{name: "object", schema: gen.S{"type": "object", "properties": gen.S{"a": gen.S{"type": "integer"}, "b": gen.S{"type": "string"}}, "required": gen.Arr("a")}, good: []string{"a,1", "a,1,b,x"}, bad: []string{"b,x"}, junk: []string{"a,one", "a"}},
+		{name: "object-explode-false-written", schema: gen.S{"type": "object", "properties": gen.S{"a": gen.S{"type": "integer"}, "b": gen.S{"type": "string"}}, "required": gen.Arr("a")}, good: []string{"a,1", "a,1,b,x"}, bad: []string{"b,x"}, junk: []string{"a,one", "a", "a=1"}, explicitFalse: true},
+		{name: "array-explode-false-written", schema: gen.S{"type": "array", "items": gen.S{"type": "integer"}, "maxItems": 2.0}, good: []string{"1", "1,2"}, bad: []string{"1,2,3"}, junk: []string{"1,x"}, explicitFalse: true},
 		{name: "object-explode", schema: gen.S{"type": "object", "properties": gen.S{"a": gen.S{"type": "integer"}, "b": gen.S{"type": "string"}}, "required": gen.Arr("a")}, good: []string{"a=1", "a=1,b=x"}, bad: []string{"b=x"}, junk: []string{"a=one"}, explode: true},
 	}
 }
@@ -243,6 +246,9 @@ func c08Headers(c *core.Ctx, hi int) {
 		}
 		if sh.explode {
 			h["explode"] = true
+		}
+		if sh.explicitFalse {
+			h["explode"] = false
 		}
 		responses := gen.S{"200": gen.S{"description": "d", "headers": gen.S{"X-R": h, "X-Other": gen.S{"schema": gen.S{"type": "string"}}}}}
 		d, err := loadDoc(c08DocFor(responses))
